@@ -254,13 +254,19 @@ def run_binary_representation(ctx):
         if math.prod(ty_numel(t) for t in types) > 300:
             continue
         ttypes = utypes = types
-        if k % 3 == 1 and nd >= 2:
+        if k % 3 == 1:
+            nd = ctx.rng.choice([2, 2, 3])
+            types = [ptgen.random_type(ctx.rng, depth=ctx.rng.choice([0, 1, 1]), sizes=[2, 3, 2]) for _ in range(nd)]
+            if math.prod(ty_numel(t) for t in types) > 300:
+                continue
             # BROADCAST: one operand has the unit axis in some dimensions where the other has a pattern — in particular the SAME axis
             # twice (a diagonal): every broadcast dimension gets its own fresh axis, the other operand's pattern is densified there
-            if ctx.rng.random() < 0.6:
+            unit = [ctx.rng.random() < 0.5 for _ in types]
+            if ctx.rng.random() < 0.8:
                 i, j = ctx.rng.sample(range(nd), 2)
                 types[j] = types[i]
-            unit = [ctx.rng.random() < 0.5 for _ in types]
+                if ctx.rng.random() < 0.6:
+                    unit[i] = unit[j] = True         # both dimensions of a (possible) diagonal are broadcast
             if not any(unit): unit[ctx.rng.randrange(nd)] = True
             bt = [('atom', 1) if b_ else ty for b_, ty in zip(unit, types)]
             ttypes, utypes = (bt, types) if ctx.rng.random() < 0.5 else (types, bt)
@@ -280,6 +286,20 @@ def run_binary_representation(ctx):
                 r = f(t, u)
             except Exception as e:  # noqa
                 ctx.fail(f'{name} raised {type(e).__name__}: {str(e)[:100]} on operands of the same shape', case, repr(e), None, tags=['raises', name, type(e).__name__])
+                continue
+            # the property itself: the result denotes torch's (broadcasting) result on the dense operands
+            TOPS = {'add': torch.add, 'sub': torch.sub, 'mul': torch.mul, 'maximum': torch.maximum, 'lt': torch.lt, 'le': torch.le,
+                    'eq': torch.eq, 'gt': torch.gt, 'ge': torch.ge}
+            try:
+                wd = TOPS[name](t.to_dense(), u.to_dense())
+                rd = r.to_dense()
+                if list(rd.shape) != list(wd.shape) or not same_dense(rd.to(torch.float64), wd.to(torch.float64), 0.0):
+                    ctx.fail(f'{name}: result does not denote torch\'s result on the dense operands', case, rd.tolist(), wd.tolist(),
+                             tags=['value', name])
+                    continue
+            except Exception as e:  # noqa
+                ctx.fail(f'{name}: to_dense() of the result raised {type(e).__name__}: {str(e)[:100]}', case, repr(e), None,
+                         tags=['raises', 'result-to_dense', name, type(e).__name__])
                 continue
             ids2 = dict(ids)
             pa = enc_list(r.paxes, lambda k_: f'P {ids2.setdefault(id(k_), len(ids2))} {k_._numel}')
